@@ -58,6 +58,11 @@ func (checker *TimestampChecker) IsUpToDate(t *ast.Task) (bool, error) {
 		}
 	}
 
+	// A missing generated file makes the task out of date, whatever the times say
+	if exist, err := generatesExist(t); !exist || err != nil {
+		return false, err
+	}
+
 	taskTime := time.Now()
 
 	// Compare the time of the generates and sources. If the generates are old, the task will be executed.
